@@ -4,6 +4,7 @@ import EpdVerif.Pure
 import EpdVerif.Oracle.Pure
 import EpdVerif.Oracle.All
 import EpdVerif.Props.Structural
+import EpdVerif.Big
 /-!
 # epdmodel — runs the Lean model on scenario lines and compares it with the harness trace
 
@@ -152,6 +153,25 @@ partial def loop (hs ht : IO.FS.Handle) (cfg : Cfg) (n drift : Nat) : IO (Nat ×
       | some d =>
         IO.println s!"C {sc.id} drift {d}"
         loop hs ht cfg (n + 1) (drift + 1)
+    else if sc.panel == "epd12in48b_v2" then
+      match Big.parseBlockB block with
+      | .error e => do
+        IO.println s!"X {sc.id} bad trace: {e}"
+        loop hs ht cfg (n + 1) (drift + 1)
+      | .ok impl => do
+        let model := Big.runOpsB sc sc.ops (Big.mkBEnv sc)
+        if cfg.props.contains "C15" then
+          let (k, fs) := Big.c15Verdicts sc impl
+          if fs.isEmpty then IO.println s!"V {sc.id} C15 ok n={k}"
+          else for ftxt in fs.eraseDups do IO.println s!"V {sc.id} C15 FAIL {ftxt}"
+          for ftxt in (Big.c15Verdicts sc model).2.eraseDups do IO.println s!"VM {sc.id} C15 FAIL {ftxt}"
+        match Big.compareB model impl 0 with
+        | none => do
+          IO.println s!"C {sc.id} same"
+          loop hs ht cfg (n + 1) drift
+        | some d => do
+          IO.println s!"C {sc.id} drift {d}"
+          loop hs ht cfg (n + 1) (drift + 1)
     else
     match findPanel f sc.panel, sc.ops.mapM parseOp, parseBlock block with
     | none, _, _ => do
@@ -196,18 +216,19 @@ def main (args : List String) : IO UInt32 := do
       let raise := ",".intercalate ((Spec.raiseSet p.name p.family).map hexByte)
       let supports (o : Op) : Bool := (p.prog p.init o).isSome
       let opsS := [("wake", Op.wake), ("sleep", .sleep), ("disp", .disp), ("clear", .clear), ("wait", .wait),
-        ("bg", .bg 0), ("lut", .lut none), ("upd", .upd []), ("updisp", .updisp []), ("part", .part [] 0 0 8 8),
+        ("bg", .bg 0), ("lut", .lut none), ("lutsel", .lut (some .quick)), ("upd", .upd []), ("updisp", .updisp []), ("part", .part [] 0 0 8 8),
         ("old", .old []), ("newf", .newf []), ("dispnew", .dispnew), ("updispnew", .updispnew []),
         ("pold", .pold [] 0 0 8 8), ("pnew", .pnew [] 0 0 8 8), ("pclear", .pclear 0 0 8 8),
         ("color", .color [] []), ("achro", .achro []), ("chro", .chro []), ("base", .base []),
         ("refresh", .refresh .full), ("border", .border 0), ("part2", .part2 [] 0 0 8 8),
         ("dpart", .dpart 0 0 8 8), ("pachro", .pachro [] 0 0 8 8), ("pchro", .pchro [] 0 0 8 8),
         ("basedisp", .basedisp [] none), ("disppart", .disppart), ("7block", .sevenBlock)]
-      let impl (o : Op) : Bool := match p.prog p.init o with
-        | some [Act.panic] => false
-        | some [] => false
-        | some _ => true
-        | none => false
+      let impl (o : Op) : Bool := match p.prog p.init o, o with
+        | some [Act.panic], _ => false
+        | some [], .lut (some _) => true      -- `set_lut` that accepts and ignores the mode
+        | some [], _ => false
+        | some _, _ => true
+        | none, _ => false
       let sup := ",".intercalate ((opsS.filter fun (_, o) => supports o).map fun (n, o) => if impl o then n else n ++ "!")
       IO.println s!"P {p.name} {p.width} {p.height} {fam} {if p.single then 1 else 0} {if p.busyLow then 1 else 0} {p.colors} {raise} {if Spec.busyLevel p.family then 1 else 0} {sup}"
     return 0
